@@ -111,7 +111,7 @@ func oracleC17Memberships(memberSel [][]int, noMembership bool) {
 //@   oracle
 //@   covers hasInterestingTags
 //@   covers osmgeojson.Convert
-func oracleC17NodeEmission(start int, nTags int, step int, member bool, loneLocated bool) {
+func oracleC17NodeEmission(start int, nTags int, step int, member bool, loneLocated bool, noMembership bool) {
 	keys := []string{"source", "created_by", "note", "amenity", "name", "highway", "fixme", "odbl"}
 	var tags osm.Tags
 	interesting := false
@@ -139,7 +139,13 @@ func oracleC17NodeEmission(start int, nTags int, step int, member bool, loneLoca
 		o.Relations = osm.Relations{{ID: 9, Version: 1, Tags: osm.Tags{{Key: "type", Value: "site"}},
 			Members: osm.Members{{Type: osm.TypeNode, Ref: 1, Role: "x"}}}}
 	}
-	fc, err := Convert(o)
+	// switching relation memberships off only removes the "relations" property: which nodes are emitted
+	// stays the same (a relation member node is still a point)
+	var nopts []Option
+	if noMembership {
+		nopts = append(nopts, NoRelationMembership(true))
+	}
+	fc, err := Convert(o, nopts...)
 	vAssert(err == nil && fc != nil)
 	if fc == nil {
 		return
